@@ -116,9 +116,11 @@ class SeriesLog:
                 return
         anchors = [x for x in (rec._start_point, rec._end_point)
                    if x is not None]
+        d0 = rec._duration
+        nominal0 = d0 is not None and not R.dur_is_exact(d0)
         if any(x._truncated or not R.tp_is_integral(x) or
-               x._hour_of_day == 24 for x in anchors):
-            return
+               (x._hour_of_day == 24 and nominal0) for x in anchors):
+            return      # (24:00 anchors: exact intervals only, R2c)
         ctx.ev("series.checked")
         is_case = ctx.case_rec_id == id(rec)
         n = rec._repetitions
@@ -228,8 +230,7 @@ def install(ctx, repo, probes):
             return
         mode = R.canon(repo.CALENDAR.mode)
         s, e, d = rec._start_point, rec._end_point, rec._duration
-        if any(x is not None and (x._truncated or not R.tp_is_integral(x)
-                                  or x._hour_of_day == 24)
+        if any(x is not None and (x._truncated or not R.tp_is_integral(x))
                for x in (s, e)):
             return
         ctx.ev("init.post")
@@ -252,6 +253,7 @@ def install(ctx, repo, probes):
                 ctx.target("fmt%d/%s/%s" % (fmt, kind, iv))
     for mode in R.MODES:
         ctx.target("mode/" + mode)
+    ctx.target("anchor-24:00")
 
 
 def given_anchor_instant(desc):
@@ -362,7 +364,15 @@ def workload(ctx, repo):
                     "second_rep": rng.choice(gen.REPS),
                     "second_off": list(gen.rand_offset(rng))}
         else:
-            case = {"op": "iterate", "desc": recgen.make(rng, mode)}
+            desc = recgen.make(rng, mode)
+            if k % 6 == 1 and not recgen.is_nominal(desc):
+                # the anchor spelled as 24:00 of its day (exact intervals)
+                a = desc["end"] if desc["fmt"] == 4 else desc["start"]
+                for key in ("minute_of_hour", "second_of_minute"):
+                    a.pop(key, None)
+                a["hour_of_day"] = 24
+                ctx.cls("anchor-24:00")
+            case = {"op": "iterate", "desc": desc}
         ctx.case = case
         if k % 401 == 0:
             ctx.sample(case)
